@@ -132,19 +132,41 @@ def _dom_interplin(tier, seed):
 
 
 # ------------------------------------------------------------------------------------------------ weighted median
-def wmedian_def(arr, weights):
-    """the statement: smallest sorted value whose cumulative weight reaches half the total (run-time oracle)"""
+def wmedian_def(arr, weights, got=None):
+    """the statement: smallest sorted value whose cumulative weight reaches half the total, evaluated in exact rational
+    arithmetic.  When the cumulative weight at some sorted position equals half the total to within rounding (1e-12 of the total)
+    the floating-point comparison of the routine can fall either way: then the value at that position and the next one are both
+    accepted (returns `got` if it is one of them)"""
+    from fractions import Fraction
     import numpy as np
     arr = np.atleast_1d(arr)
-    w = np.atleast_1d(weights).astype("f8")
+    w = [Fraction(float(x)) for x in np.atleast_1d(weights).astype("f8")]
     order = np.argsort(arr, kind="stable")
-    half = w.sum() / 2.0
-    cum = 0.0
-    for j in order:
+    tot = sum(w)
+    half = tot / 2
+    cum = Fraction(0)
+    exact = None
+    accept = []
+    for pos, j in enumerate(order):
         cum += w[j]
-        if w.sum() - cum <= half:
-            return arr[j]
-    return arr[order[-1]]
+        near = abs(cum - half) <= tot * Fraction(1, 10 ** 12)
+        if exact is None and cum >= half:
+            exact = arr[j]
+            accept.append(arr[j])
+            if near:
+                # rounding may see "not yet half": the routine then moves on to the next position with non-zero effect
+                for j2 in order[pos + 1:]:
+                    accept.append(arr[j2])
+                    if w[j2] > tot * Fraction(1, 10 ** 12):
+                        break
+            break
+        if near:
+            accept.append(arr[j])         # rounding may see "already half" one position early
+    if exact is None:
+        exact = arr[order[-1]]
+    if got is not None and any(float(got) == float(a) for a in accept):
+        return got
+    return exact
 
 
 contract(
@@ -153,7 +175,7 @@ contract(
     requires={"sizes": "len(arr_in) >= 1 and len(weights_in) == len(arr_in)",
               "non-negative-weights": "all(weights_in[i] >= 0 for i in range(0, len(weights_in)))"},
     ensures={"a-value-of-the-input": "any(result == arr_in[i] for i in range(0, len(arr_in)))"},
-    rt_ensures={"equals-the-definition": "approx(result, wmedian_def(arr_in, weights_in))"},
+    rt_ensures={"equals-the-definition": "approx(result, wmedian_def(arr_in, weights_in, result))"},
     asserts={"L0:before": {
         "prefix-sums-non-negative": "induct(j, 0, len(arr), psum(weights, sind, j) >= 0)",
         "sum-in-sorted-order-is-the-total": "assume_axiom(psum(weights, sind, len(arr)) == wtot)",
@@ -439,3 +461,37 @@ def _dom_roundtrip(tier, seed):
         import numpy as np
         if (np.diag(cov) > 0).all():
             yield dict(call=(lambda cov=cov: None), args=[], ghost=dict(cov=cov))
+
+
+# ------------------------------------------------------------------------------------------------ sigma clipping (deductive part)
+# "returns the mean, deviation and error of exactly the surviving subset it reports": proved for the unweighted routine with the
+# function's own locals as witnesses (tarr is the reported subset, element by element); the clipping rule itself (which points
+# survive) is the bounded statement oracle sigma_clip#statement
+contract(
+    "esutil.stat.util.sigma_clip#unweighted", runtime_name="esutil.stat.util.sigma_clip",
+    params=dict(arrin="arr[real]", weights="none", niter="nat", nsig="real", get_err="const:True", get_indices="const:True",
+                extra="obj:dict{}", verbose="const:False", silent="const:True"),
+    requires={"non-empty": "len(arrin) >= 1"},
+    inline_calls=["esutil.stat.util._get_sigma_clip_subset", "esutil.stat.util._get_sigma_clip_stats"],
+    loops={"L0": dict(counter="i", inv={
+        "reported-indices-are-positions-of-the-input-in-increasing-order":
+            "1 <= len(indices) and len(indices) <= len(arr) and all(0 <= indices[k] and indices[k] < len(arr) for k in range(0, len(indices)))"
+            " and all(indices[a] < indices[b] for a in range(0, len(indices)) for b in range(a + 1, len(indices)))",
+        "current-subset-is-the-input-at-those-positions":
+            "len(tarr) == len(indices) and all(tarr[k] == arr[indices[k]] for k in range(0, len(indices))) and nold == len(indices)",
+        "statistics-are-those-of-the-current-subset":
+            "m == tarr.mean() and s == tarr.std() and e == s / sqrt(real(len(tarr)))",
+    })},
+    ret_post={"return#0": {
+        "mean-deviation-error-of-exactly-the-reported-subset":
+            "result[0] == tarr.mean() and result[1] == tarr.std() and result[2] == tarr.std() / sqrt(real(len(tarr)))"
+            " and len(tarr) == len(result[3]) and all(tarr[k] == arrin[result[3][k]] for k in range(0, len(tarr)))",
+        "reported-subset-is-a-non-empty-increasing-selection-of-positions":
+            "1 <= len(result[3]) and len(result[3]) <= len(arrin)"
+            " and all(0 <= result[3][k] and result[3][k] < len(arrin) for k in range(0, len(result[3])))"
+            " and all(result[3][a] < result[3][b] for a in range(0, len(result[3])) for b in range(a + 1, len(result[3])))",
+    }},
+    ensures={"input-untouched": "all(arrin[k] == old(arrin[k]) for k in range(0, len(arrin)))"},
+    modifies=["extra"],
+    props=["C18", "C15"], runtime=False,
+)
